@@ -283,3 +283,52 @@ Example C37_same_length_body_nonvacuous :
   (ghash (hkey K) (delta_input c c) =? 0) = true /\
   decrypt aes256 pw (nonce ++ c ++ tag K nonce c) = Ok msg.
 Proof. vm_compute. repeat split; reflexivity. Qed.
+
+(* ---- the field laws of GF(2^128) for the multiplication GHASH uses (ProofsField.v).  A block is
+   the big-endian number of its 16 bytes (bit 127 = coefficient of x^0); xor is the addition.
+   All laws are proved for all operands (no evaluation over a domain). ---- *)
+From C37 Require Import ProofsField.
+
+(* linear over xor in the SECOND argument too (with C37_gf_mul_linear: distributivity on both sides) *)
+Theorem C37_gf_mul_linear_r : forall x a b, gf_mul x (N.lxor a b) = N.lxor (gf_mul x a) (gf_mul x b).
+Proof. exact gf_mul_linear_r. Qed.
+Print Assumptions C37_gf_mul_linear_r.
+
+(* commutative on blocks *)
+Theorem C37_gf_mul_comm : forall x y, x < 2 ^ 128 -> y < 2 ^ 128 -> gf_mul x y = gf_mul y x.
+Proof. exact gf_mul_comm. Qed.
+Print Assumptions C37_gf_mul_comm.
+
+(* the block 80 00 .. 00 (the polynomial 1 in GCM's reflected bit order) is the unit: on the left
+   for every y, on the right for every block (in general the right product keeps the low 128 bits) *)
+Theorem C37_gf_mul_one :
+  be_val (n2b 128 :: zeros 15) = 2 ^ 127 /\
+  (forall y, gf_mul (2 ^ 127) y = y) /\
+  (forall x, x < 2 ^ 128 -> gf_mul x (2 ^ 127) = x) /\
+  (forall x, gf_mul x (2 ^ 127) = x mod 2 ^ 128).
+Proof. exact (conj gf_one_block (conj gf_mul_one_l (conj gf_mul_one_r gf_mul_one_r_mod))). Qed.
+Print Assumptions C37_gf_mul_one.
+
+(* associative (x is unrestricted: only its low 128 bits are read) *)
+Theorem C37_gf_mul_assoc : forall x y z, y < 2 ^ 128 -> z < 2 ^ 128 ->
+  gf_mul (gf_mul x y) z = gf_mul x (gf_mul y z).
+Proof. exact gf_mul_assoc. Qed.
+Print Assumptions C37_gf_mul_assoc.
+
+(* multiplications by constants commute with each other, for all operands (the lemma behind
+   commutativity and associativity), and zero annihilates *)
+Theorem C37_gf_mul_exchange : forall x a y, gf_mul x (gf_mul a y) = gf_mul a (gf_mul x y).
+Proof. exact gf_mul_exchange. Qed.
+Print Assumptions C37_gf_mul_exchange.
+
+Theorem C37_gf_mul_zero : (forall y, gf_mul 0 y = 0) /\ (forall x, gf_mul x 0 = 0).
+Proof. exact (conj gf_mul_zero_l gf_mul_zero_r). Qed.
+Print Assumptions C37_gf_mul_zero.
+
+(* non-vacuity: two concrete blocks, products differ from the operands, laws visible *)
+Example C37_gf_mul_field_nonvacuous :
+  let a := 1339673755198158349044581307228491520 in
+  let b := 226854911280625642308916404954512140970 in
+  a < 2 ^ 128 /\ b < 2 ^ 128 /\ gf_mul a b = gf_mul b a /\ gf_mul a b <> 0 /\ gf_mul a b <> a /\
+  gf_mul (gf_mul a b) b = gf_mul a (gf_mul b b) /\ gf_mul a (2 ^ 127) = a.
+Proof. vm_compute. repeat split; try reflexivity; discriminate. Qed.
